@@ -36,6 +36,12 @@ def gen_fn(rng, allow_names):
     params = ["%s a%d%s" % (t, j, "" if j < nreq else " = %d" % j) for j, t in enumerate(sig)]
     d = {"decl": "void %s(%s)" % (name, ", ".join(params))}
     f = {"name": name, "ndef": ndef, "suffix": None, "das": [], "tmpl": [], "generic": [], "sig": sig[:nreq], "defsig": sig[nreq:]}
+    f["wrap"] = (True, True)
+    if rng.random() < 0.12:
+        # wrapper selection on this declaration: C only, or neither C nor Fortran (a Fortran wrapper without its C wrapper needs a
+        # user-supplied body: outside the usage rules).  The function still takes part in the numbering of its overload set.
+        f["wrap"] = rng.choice([(True, False), (False, False)])
+        d["options"] = {"wrap_fortran": False} if f["wrap"][0] else {"wrap_c": False, "wrap_fortran": False}
     if rng.random() < 0.15:
         f["suffix"] = rng.choice(["_x", "_alt", ""])         # made unique within its scope by gen_library
         d["format"] = {"function_suffix": f["suffix"]}
@@ -233,7 +239,8 @@ def run(ctx):
     lines, index = [], []
     for li, (scopes, _) in enumerate(libs):
         for (sc, cs, fsc, fs) in scopes:
-            lines.append("names|%s|%s|%s|%s" % (enc("NAM_"), enc(cs), enc(fsc), ";".join(encf(f) for f in fs)))
+            lines.append("namesw|%s|%s|%s|%s|%s" % (enc("NAM_"), enc(cs), enc(fsc), ";".join(encf(f) for f in fs),
+                                                   ",".join(("T" if f.get("wrap", (True, True))[0] else "F") + ("T" if f.get("wrap", (True, True))[1] else "F") for f in fs)))
             index.append((li, sc))
     mres = drv.pbatch(lines)
     model = collections.defaultdict(dict)
@@ -319,7 +326,7 @@ def run(ctx):
                 problems.append(("method table %s of %s has two entries with the same name" % (t, f), d))
         # count: one C entry point per callable signature
         for (sc, cs, fsc, fs) in scopes:
-            want_c = sum((len(f["tmpl"]) if f["tmpl"] else f["ndef"] + 1) for f in fs)
+            want_c = sum((len(f["tmpl"]) if f["tmpl"] else f["ndef"] + 1) for f in fs if f.get("wrap", (True, True))[0])
             got_c = len([x for x in r["nodes"] if x["scope"] == sc and x["c"] and x["generated"] in (None, "has_default_arg", "cxx_template")])
             if want_c != got_c:
                 problems.append(("number of C entry points differs from the number of callable signatures in scope '%s'" % sc, "%d vs %d" % (got_c, want_c)))
